@@ -6,7 +6,7 @@ import itertools
 import os
 import subprocess
 
-from core import driver_path, enc_str
+from core import driver_path, enc_str, enc_str_list
 
 ALPHA = ["[", "]", "\\", "/", "=", "#", "a", "b", "1", " ", "\n", ":"]
 
@@ -15,6 +15,9 @@ ALPHA = ["[", "]", "\\", "/", "=", "#", "a", "b", "1", " ", "\n", ":"]
 ALPHA2 = ["[", "]", "\\", "/", "z", "`", "{", "A", '"', "$", ".", "0", "\r", "\t", ":", "="]
 
 F8_SLUG = "markup-same-start-precedence"
+# the F8 defect is repaired in /repo: with the repaired span order nothing is ever classified as F8
+# (every failure is a loud violation); set by props/c04.py from its SORT_SPANS flag before forking.
+CLASSIFY_F8 = False
 
 # ------------------------------------------------------------------------------------------------
 # adapters around the real code
@@ -64,19 +67,14 @@ def emoji_table(markup):
     return out
 
 
-def real_render(markup, emoji, via_text=False):
-    """-> (canonical answer, normalize table, result or exception)"""
+def recorded(fn):
+    """run fn() -> Text on real rich while recording Style.normalize: (canonical answer, table, result or exception)"""
     global _REC
     from rich.errors import MarkupError
-    from rich.markup import render
-    from rich.text import Text
 
     _REC = {}
     try:
-        if via_text:
-            t = Text.from_markup(markup, emoji=emoji)
-        else:
-            t = render(markup, emoji=emoji)
+        t = fn()
         ans = "ok|" + enc_str(t.plain) + "|" + enc_spans(t.spans)
         res = t
     except MarkupError as e:
@@ -87,6 +85,143 @@ def real_render(markup, emoji, via_text=False):
         res = e
     tbl, _REC = _REC, None
     return ans, tbl, res
+
+
+def real_render(markup, emoji, via_text=False):
+    """-> (canonical answer, normalize table, result or exception)"""
+    from rich.markup import render
+    from rich.text import Text
+
+    if via_text:
+        return recorded(lambda: Text.from_markup(markup, emoji=emoji))
+    return recorded(lambda: render(markup, emoji=emoji))
+
+
+def enc_opt_bool(b):
+    return "-" if b is None else ("1" if b else "0")
+
+
+def tri(arg, dflt):
+    return dflt if arg is None else arg
+
+
+_CONSOLES = {}
+
+
+def console_for(ce, cm):
+    """Console(emoji=ce, markup=cm) with highlighting off, writing to a StringIO, no colour, very wide"""
+    import io
+
+    from rich.console import Console
+
+    key = (ce, cm)
+    if key not in _CONSOLES:
+        _CONSOLES[key] = Console(file=io.StringIO(), width=2000, color_system=None, force_terminal=False,
+                                 highlight=False, emoji=ce, markup=cm, legacy_windows=False)
+    return _CONSOLES[key]
+
+
+def o_render_str(text, emoji_on, markup_on, normalize=None):
+    """oracle for render_str with highlighting off: ('ok', plain, ann, spans) | ('err', ...) | ('undecided',)"""
+    if markup_on:
+        return o_render(text, normalize or o_normalize, emoji_on)
+    plain = strip_ctl(o_emoji(text) if emoji_on else text)
+    return ("ok", plain, [()] * len(plain), [])
+
+
+def check_glue(out, strs, sep, ce, cm, e, m, full=True):
+    """Console.render_str on strs[0] and Console.print(*strs, sep=sep): which of markup / emoji is
+    interpreted is decided by the arguments and the console defaults."""
+    from rich.errors import MarkupError
+
+    con = console_for(ce, cm)
+    emoji_on, markup_on = tri(e, ce), tri(m, cm)
+    s = strs[0]
+    flags = [enc_bool01(ce), enc_bool01(cm), enc_opt_bool(e), enc_opt_bool(m)]
+    # ---- render_str
+    ans, tbl, res = recorded(lambda: con.render_str(s, emoji=e, markup=m, highlight=False, style="red", justify="center", overflow="fold"))
+    out.cases.append(("mk_render_str", [enc_str(s)] + flags + [enc_table(tbl), enc_table(emoji_table(s))], ans,
+                      f"m{int(markup_on)}e{int(emoji_on)}", f"Console(emoji={ce},markup={cm}).render_str({s!r}, emoji={e}, markup={m})"))
+    out.prop(not (isinstance(res, Exception) and not isinstance(res, MarkupError)), "render_str:exception-kind", (s, ce, cm, e, m), f"raised {type(res).__name__}")
+    if not isinstance(res, Exception):
+        out.prop(res.style == "red" and res.justify == "center" and res.overflow == "fold", "render_str:glue", (s, ce, cm, e, m), "style/justify/overflow not passed through")
+        if not markup_on:
+            out.prop(res.spans == [], "render_str:markup-off", (s, ce, cm, e, m), f"markup is off but the text got spans {res.spans!r}")
+            if not emoji_on:
+                out.prop(res.plain == strip_ctl(s), "render_str:verbatim", (s, ce, cm, e, m), f"markup and emoji are off but the text came out as {res.plain!r}")
+    else:
+        out.prop(markup_on, "render_str:markup-off", (s, ce, cm, e, m), f"markup is off but render_str raised {res!r}")
+    o = o_render_str(s, emoji_on, markup_on)
+    compare_oracle(out, (s, ce, cm, e, m), o, res, ans, "render_str")
+    # ---- print: the Text handed to the renderer, and the characters written
+    ans_p, tbl_p, res_p = recorded(lambda: con._collect_renderables(list(strs), sep, "\n", emoji=e, markup=m, highlight=False)[0])
+    etbl = {}
+    for x in strs:
+        etbl.update(emoji_table(x))
+    out.cases.append(("mk_print", [enc_str_list(list(strs)), enc_str(sep)] + flags + [enc_table(tbl_p), enc_table(etbl)], ans_p,
+                      f"n{len(strs)}", f"print(*{list(strs)!r}, sep={sep!r}, emoji={e}, markup={m}) on Console(emoji={ce},markup={cm})"))
+    # expected from the oracle, piece by piece
+    want_plain, want_ann, err = "", [], None
+    ssep = strip_ctl(sep)
+    for i, x in enumerate(strs):
+        ox = o_render_str(x, emoji_on, markup_on)
+        if ox[0] == "undecided":
+            out.note("oracle:undecided")
+            return
+        if ox[0] == "err":
+            err = ox
+            break
+        if i and ssep:
+            want_plain += ssep
+            want_ann += [("",)] * len(ssep)
+        want_plain += ox[1]
+        want_ann += [("",) + a for a in ox[2]]
+    inp = (tuple(strs), sep, ce, cm, e, m)
+    if err is not None:
+        out.prop(isinstance(res_p, MarkupError), "print:error_iff_nothing_to_close", inp, f"a closing tag has nothing to close but print built {ans_p[:80]}")
+    elif out.prop(not isinstance(res_p, Exception), "print:error_iff_nothing_to_close", inp, f"print raised {res_p!r}"):
+        out.prop(res_p.plain == want_plain, "print:plain", inp, f"plain {res_p.plain!r}, expected {want_plain!r}")
+        if res_p.plain == want_plain:
+            out.prop(cover(spans_of(res_p), len(want_plain)) == want_ann, "print:tags_style_exactly", inp, f"spans {spans_of(res_p)!r}; expected per character {want_ann!r}")
+    if full and "\t" not in "".join(strs) + sep:
+        import io
+
+        con.file = io.StringIO()
+        try:
+            con.print(*strs, sep=sep, emoji=e, markup=m)
+            written = con.file.getvalue()
+            exc = None
+        except Exception as x:  # noqa: BLE001
+            written, exc = None, x
+        if err is not None:
+            out.prop(isinstance(exc, MarkupError), "print:written", inp, f"expected MarkupError, print wrote {written!r} / raised {exc!r}")
+        else:
+            out.prop(exc is None and written == want_plain + "\n", "print:written", inp, f"print wrote {written!r} (raised {exc!r}); expected {want_plain + chr(10)!r}")
+
+
+def enc_bool01(b):
+    return "1" if b else "0"
+
+
+def compare_oracle(out, inp, o, res, ans, pre):
+    """shared: rich's result `res` against the oracle's answer `o` (no F8 classification: that defect is repaired)"""
+    from rich.errors import MarkupError
+
+    if o[0] == "undecided":
+        out.note("oracle:undecided")
+    elif o[0] == "err":
+        out.prop(isinstance(res, MarkupError), pre + ":error_iff_nothing_to_close", inp, f"a closing tag at {o[2]} has nothing to close but the result is {ans[:80]}")
+        if isinstance(res, MarkupError):
+            want = (f"closing tag '{o[3]}' at position {o[2]} doesn't match any open tag" if o[1] == "nomatch"
+                    else f"closing tag '[/]' at position {o[2]} has nothing to close")
+            out.prop(str(res) == want, pre + ":error-message", inp, f"message {str(res)!r}, expected {want!r}")
+    else:
+        _, plain, ann, want_spans = o
+        if out.prop(not isinstance(res, Exception), pre + ":error_iff_nothing_to_close", inp, f"every closing tag has something to close but {res!r} was raised"):
+            out.prop(res.plain == plain, pre + ":plain", inp, f"plain {res.plain!r}, expected {plain!r}")
+            got = spans_of(res)
+            out.prop(cover(got, len(plain)) == [tuple(a) for a in ann] and len(got) == len(want_spans), pre + ":tags_style_exactly", inp,
+                     f"spans {got!r}; expected (opening order, later wins) {want_spans!r}")
 
 
 def real_parse(markup):
@@ -413,7 +548,7 @@ def against_oracle(out, s, res, ans, emoji, normalize=o_normalize, pre="render")
             okc = cover(got, len(plain)) == ann and len(got) == len(want_spans)
             out.prop(okc, pre + ":tags_style_exactly", s,
                      f"spans {got!r}; expected (opening order, later wins) {want_spans!r}",
-                     finding=F8_SLUG if (not okc and res.plain == plain and f8_shape(got, want_spans)) else None)
+                     finding=F8_SLUG if (CLASSIFY_F8 and not okc and res.plain == plain and f8_shape(got, want_spans)) else None)
             if want_spans:
                 out.note("oracle:spans%d" % min(len(want_spans), 4))
 
@@ -475,7 +610,7 @@ def check_string(out, s, sort_flag, level=2, normalize=o_normalize):
                 if not ok:
                     # expected spans: those of A+B with the junction widened
                     ws = [(a if a <= cut else a + len(st) - 1, b2 if b2 <= cut else b2 + len(st) - 1, c) for a, b2, c in base[3]]
-                    fnd = F8_SLUG if f8_shape(got, ws) else None
+                    fnd = F8_SLUG if (CLASSIFY_F8 and f8_shape(got, ws)) else None
             out.prop(ok, "render_escape_embedded", (A, s, B), f"render(A + escape(s) + B) = {ansx[:160]}; expected plain {want_plain!r} styled as A+B around the junction", finding=fnd)
 
 
